@@ -21,8 +21,9 @@ What happens:
                    [--exact] --harness <h> <flags>
     with RUSTFLAGS='--cfg nuts_rs_verif', CARGO_NET_OFFLINE=true and the persistent target directory
     $VERIF_CACHE/kani-target (dependency builds are reused); at most 3 at once (env VERIF_KANI_JOBS);
-    the compile phases are serialised (cargo would serialise them on its lock anyway) and the harness
-    timeout starts when Kani prints "Checking harness";
+    the compile phases are serialised across processes (flock in the target directory) and the crate
+    sources of the scratch copy are re-stamped before every launch, so cargo never reuses a goto binary
+    built from another tree; the harness timeout starts when Kani prints "Checking harness";
   * a watchdog kills the whole process group on timeout or when its RSS exceeds the cap;
   * ERROR / TIMEOUT are never reported as FAILED: compile errors, Kani/CBMC crashes, CBMC timeouts,
     out-of-memory, reachable unsupported constructs and *unwinding-assertion* failures (= the harness
@@ -35,6 +36,7 @@ CLI (from /verif):  python3 -m vx.kani <property> [--tier quick|thorough] [--onl
 reads the specs from /verif/kani/specs.json (dict property -> list of specs).
 """
 import atexit
+import fcntl
 import json
 import os
 import re
@@ -65,6 +67,57 @@ CLK_TCK = os.sysconf("SC_CLK_TCK")
 PAGE = os.sysconf("SC_PAGE_SIZE")
 
 _build_lock = threading.Lock()
+
+
+class _CrossProcessBuildLock:
+    """In-process lock + flock on a file in the shared target directory.
+
+    Why it must be cross-process and why sources are touched under it: cargo's fingerprint of a path
+    package is mtime-based and workspace-relative, the absolute scratch path is not part of it, and the
+    build hash depends on the harness name only.  A scratch copy whose files are OLDER than the last
+    build of the same harness (copytree keeps mtimes; an edited tree used for a validation run, then the
+    clean tree) is therefore "Fresh" for cargo and the previous goto binary - built from ANOTHER tree -
+    would be verified.  Under this lock every launch first stamps the crate sources with the current
+    time, so cargo always rebuilds the crate (not the dependencies) from the tree that is being checked,
+    and nobody else rebuilds the same harness until CBMC has loaded the goto binary."""
+
+    def __init__(self):
+        self._fh = None
+
+    def acquire(self):
+        _build_lock.acquire()
+        try:
+            os.makedirs(TARGET_DIR, exist_ok=True)
+            self._fh = open(os.path.join(TARGET_DIR, ".vx-kani-build.lock"), "a+")
+            fcntl.flock(self._fh, fcntl.LOCK_EX)
+        except BaseException:
+            if self._fh:
+                self._fh.close()
+                self._fh = None
+            _build_lock.release()
+            raise
+
+    def release(self):
+        try:
+            if self._fh:
+                fcntl.flock(self._fh, fcntl.LOCK_UN)
+                self._fh.close()
+                self._fh = None
+        finally:
+            _build_lock.release()
+
+
+def _touch_sources(crate_dir):
+    """Stamp every source of the crate and of its path dependencies with 'now' (see the lock above)."""
+    now = time.time()
+    for root, dirs, files in os.walk(crate_dir):
+        dirs[:] = [d for d in dirs if d not in ("target", ".git")]
+        for fn in files:
+            if fn.endswith((".rs", ".toml", ".lock")):
+                try:
+                    os.utime(os.path.join(root, fn), (now, now))
+                except OSError:
+                    pass
 _scratch_lock = threading.Lock()
 _scratch = {}  # repo path -> (scratch dir, note) prepared once per process
 
@@ -216,9 +269,12 @@ def _cmd_string(cmd):
 
 def _run_watched(cmd, cwd, log_path, timeout_s, mem_gb):
     """Run cmd; returns dict(out, rc, why, verify_s, wall_s, cpu_s, peak_rss).  `why` is None, "timeout",
-    "build-timeout" or "memory".  The build phase (until 'Checking harness') holds the build lock."""
+    "build-timeout" or "memory".  The build phase holds the cross-process build lock until CBMC has
+    loaded the goto binary ('Starting Bounded Model Checking'); the harness timeout starts at
+    'Checking harness'."""
     t0 = time.time()
-    _build_lock.acquire()
+    lock = _CrossProcessBuildLock()
+    lock.acquire()
     have_lock = True
     why = None
     verify_start = None
@@ -226,6 +282,7 @@ def _run_watched(cmd, cwd, log_path, timeout_s, mem_gb):
     peak = 0
     cpu = 0.0
     try:
+        _touch_sources(cwd)
         with open(log_path, "wb") as log:
             proc = subprocess.Popen(cmd, cwd=cwd, env=_env(), stdout=log, stderr=subprocess.STDOUT,
                                     stdin=subprocess.DEVNULL, start_new_session=True)
@@ -240,17 +297,19 @@ def _run_watched(cmd, cwd, log_path, timeout_s, mem_gb):
                     pass
                 rss, cpu = _group_usage(pgid, seen_cpu)
                 peak = max(peak, rss)
-                if verify_start is None:
+                if have_lock:
                     try:
                         with open(log_path, "rb") as rf:
                             rf.seek(pos)
                             chunk = rf.read()
                             pos += max(0, len(chunk) - 64)
-                        if b"Checking harness" in chunk:
+                        if verify_start is None and b"Checking harness" in chunk:
                             verify_start = time.time()
-                            if have_lock:
-                                _build_lock.release()
-                                have_lock = False
+                        if b"Starting Bounded Model Checking" in chunk or b"VERIFICATION:-" in chunk:
+                            if verify_start is None:
+                                verify_start = time.time()
+                            lock.release()
+                            have_lock = False
                     except OSError:
                         pass
                 now = time.time()
@@ -272,7 +331,7 @@ def _run_watched(cmd, cwd, log_path, timeout_s, mem_gb):
                 pass
     finally:
         if have_lock:
-            _build_lock.release()
+            lock.release()
     with open(log_path, "r", errors="replace") as f:
         out = f.read()
     t1 = time.time()
@@ -491,8 +550,20 @@ def run_for_property(pid, specs, tier, seed):
 
 
 def load_specs():
+    """Harness specs for the CLI: what is registered in props.json (`kani` key of each property) plus the entries of
+    kani/specs.json (work area) whose harness is not registered yet."""
     with open(SPECS_FILE) as f:
-        return json.load(f)
+        specs = json.load(f)
+    try:
+        with open(os.path.join(os.path.dirname(os.path.dirname(os.path.abspath(__file__))), "props.json")) as f:
+            props = json.load(f)
+        for pid, v in props.items():
+            reg = v.get("kani", []) if isinstance(v, dict) else []
+            names = {s["harness"] for s in reg}
+            specs[pid] = list(reg) + [s for s in specs.get(pid, []) if s["harness"] not in names]
+    except Exception:  # noqa: BLE001
+        pass
+    return specs
 
 
 def main(argv):
